@@ -115,10 +115,27 @@ def enc_spec(spec):
     raise ValueError(k)
 
 
-def create(F, spec):
-    """calls the new_* method of the real formula; returns the group object"""
+def create(F, spec, pool=None):
+    """calls the new_* method of the real formula; returns the group object.  With a `pool` (one per history) a graph
+    that was already given to an earlier group of the history is passed again as the SAME object"""
     k = spec["kind"]
     kw = {} if spec.get("label") is None else {"label": spec["label"]}
+    if pool is not None and "G" in spec:
+        maker = {"bipartite": mk_bipartite, "sparse_mapping": mk_bipartite, "graph": mk_graph, "digraph": mk_digraph}[k]
+        key = (maker.__name__, repr(spec["G"]))
+        if key not in pool:
+            pool[key] = maker(spec["G"])
+        G = pool[key]
+        if k == "bipartite":
+            return F.new_bipartite_edges(G, **kw)
+        if k == "sparse_mapping":
+            return F.new_sparse_mapping(G, **kw)
+        if k == "graph":
+            return F.new_graph_edges(G, **kw)
+        sb = spec.get("sortby", "pred")
+        if sb == "pred" and not spec.get("explicit_sortby"):
+            return F.new_digraph_edges(G, **kw)
+        return F.new_digraph_edges(G, sortby={"other": "foo"}.get(sb, sb), **kw)
     if k == "variable":
         F.new_variable(**kw)
         return F._groups[-1]
@@ -766,6 +783,14 @@ def handed_out(created, picks):
     return out
 
 
+class Created(list):
+    """the groups returned by the successful new_* calls of one history, plus the graph objects given to them"""
+
+    def __init__(self):
+        list.__init__(self)
+        self.pool = {}
+
+
 def apply_op(F, op, created=None):
     """returns the outcome string; `created` collects the groups returned by the successful new_* calls"""
     try:
@@ -779,7 +804,8 @@ def apply_op(F, op, created=None):
             lits = [l for _, _, l in handed_out(created or [], op["picks"]) if l is not None]
             F.add_clause(lits, check=op["check"])
             return "-"
-        g = create(F, op["spec"])
+        # histories that collect their groups also hand the same graph object to every group made from the same graph
+        g = create(F, op["spec"], pool=getattr(created, "pool", None))
         if created is not None:
             created.append(g)
         return fmt_outcome(g)
@@ -835,7 +861,7 @@ def build_hist(info, prop="C11"):
         unnamed = False
         zero_kept = False
         unchecked_beyond = False
-        created = []
+        created = Created()
         for op in ops:
             if op["op"] == "group" and op["spec"]["kind"] == "variable":
                 if uncovered(F):
@@ -864,7 +890,7 @@ def build_hist(info, prop="C11"):
 
     def oracle_c11():
         F = initial_formula(init)
-        created = []
+        created = Created()
         for op in ops:
             if op["op"] == "use":
                 # index -> identifier -> index on the groups as they are in the MIDDLE of a history
@@ -954,7 +980,7 @@ def build_hist(info, prop="C11"):
 
         F.add_clause = add_clause
         F._add_variable_group = add_group
-        created = []
+        created = Created()
         at_creation = {}
         for op in ops:
             before = F.number_of_variables()
